@@ -363,9 +363,10 @@ pub fn main(tier: Tier, seed: u64) -> i32 {
         }
     }
     rep.set("canary", json!({"runs": ccfgs.len(), "distinct_mask_vectors": share_vectors.len()}));
-    rep.distinct_nontrivial = (ni_runs.len() + fruns.len() + ccfgs.len()) as u64;
+    rep.evaluations = (ni_runs.len() + fruns.len() + ccfgs.len()) as u64;
+    rep.distinct_nontrivial = (ni_runs.len() - ni_cfgs.len() + fruns.len() + ccfgs.len()) as u64;
     rep.exhaustive = Some(true);
-    rep.rule = "1. per configuration and tape, every input assignment of the honest party: all messages it sends are diffed (only 'masked inputs' [exact difference], its broadcast echo, 'labels' and 'lambda' may differ); 2. own mask share per wire reconstructed from the transcript over the enumerated tape set (integers VERIF_SEED*N..+N) for input all-0 and all-1: both values occur, count within 5.5 sigma; 3. probed global keys and 128-bit own-mask vectors pairwise distinct over tapes and parties; 4. 128-wire canary: neither input bits nor own shares occur in the party's traffic as bool bytes or packed at any bit offset. distinct = (configuration, input, tape), all non-trivial".into();
+    rep.rule = "1. per configuration and tape, every input assignment of the honest party: all messages it sends are diffed (only 'masked inputs' [exact difference], its broadcast echo, 'labels' and 'lambda' may differ); 2. own mask share per wire reconstructed from the transcript over the enumerated tape set (integers VERIF_SEED*N..+N) for input all-0 and all-1: both values occur, count within 5.5 sigma; 3. probed global keys and 128-bit own-mask vectors pairwise distinct over tapes and parties; 4. 128-wire canary: neither input bits nor own shares occur in the party's traffic as bool bytes or packed at any bit offset. distinct = (configuration, input, tape); the first run of every non-interference configuration is the reference and is not counted as non-trivial".into();
     rep.assumptions = vec![
         "the frequency clause is a count over an enumerated tape set, not a decision by exhaustive exploration (DESIGN.md 4.C06)".into(),
         "entropy reaches the engine only through the harness's getrandom backend".into(),
